@@ -47,13 +47,13 @@ def twin(rev, fwd, lead, trail, what):
 def run(chk):
     w = make_world(chk.repo)
     chk.files = w.files
-    thorough = chk.tier == "thorough"
+    thorough = chk.full
     chk.rule("C11.R1", "forward (grid) and reverse (pointwise) operators compute the same polynomial; grid axes time-first", floor=6)
     chk.rule("C11.R2", "SPINN and PINN branches of the built-in equations compute the same residual polynomial", floor=5)
     chk.rule("C11.R4", "SPINN and PINN versions of the loss terms compute the same formula (means over grid axes vs rows)", floor=6)
     m = w.module(OPS)
     P = NNLabel('u')
-    dims = (1, 2, 3) if thorough else (1, 2)
+    dims = (1, 2, 3) if chk.tier == 'quick' else (1, 2, 3, 4)
     for d in dims:
         for has_t in (False, True):
             et = 'nonstatio_PDE' if has_t else 'statio_PDE'
